@@ -525,6 +525,7 @@ func (c *LogCase) Step(op LogOp) error {
 	if err != nil {
 		return err
 	}
+	inoBefore := inode(filepath.Join(logDir, logFile))
 	mBefore := c.Model
 	var mAfter LogModel
 	switch op.Kind {
@@ -561,6 +562,16 @@ func (c *LogCase) Step(op LogOp) error {
 	imgs, err := c.imagesFor(op, before, after, mBefore, mAfter)
 	if err != nil {
 		return err
+	}
+	if (op.Kind == "compact" || op.Kind == "discard") && inoBefore != 0 && inode(filepath.Join(logDir, logFile)) == inoBefore {
+		// log.bin kept its inode: it was rewritten in place, not replaced by a rename; a crash can
+		// leave any prefix of the new content (or an empty file) where the old log was
+		c.Labels["rewrite-in-place"]++
+		a := after[logFile]
+		for _, cut := range cutPoints(a, c.AllCuts) {
+			imgs = append(imgs, crashImage{label: fmt.Sprintf("%s in place %d/%d", op.Kind, cut, len(a)), files: dirImage{logFile: a[:cut]},
+				accept: []LogModel{mBefore, mAfter}, inside: cut < len(a)})
+		}
 	}
 	c.Model = mAfter
 	if c.afterInside >= 1 {
